@@ -31,6 +31,7 @@ RULE = (
     "underlying closed 0 times inside the block and exactly once at the outermost exit; a left scope's handle yields "
     "nothing, outer handles keep working; the same exception leaves the block. Non-trivial: >=2 tool applications "
     "or a nested scope, and the exit point was reached; distinct = distinct (program, exit point)."
+    " Extensions of rounds 9-12: tools advanced up to 10 steps, tools handing out further iterators drawn more often; aggregations over the handle; callables failing with a TypeError at one of their first calls (tools; min/max/reduce); merge with a key."
 )
 COMPONENTS = COMPONENTS_BASE
 ASSUMPTIONS = [
